@@ -649,6 +649,61 @@ fn run_many_operations(cx: &mut CaseCx, _case: &Value) {
   cx.outcome("many operations");
 }
 
+
+/// ALL 65280 ordered pairs of punctures with a light invariant (both punctures succeed, both inputs then
+/// refuse, a re-puncture is refused, eight neighbours keep their values) - the full invariant over all 256
+/// inputs for every ordered pair is the thorough tier's `singletons-and-pairs`
+fn run_ordered_pairs_light(cx: &mut CaseCx, case: &Value) {
+  let (g0, baseline) = setup_ggm(cx, 1);
+  if !check_baseline(cx, &baseline) {
+    return;
+  }
+  let lo = case["lo"].as_u64().unwrap() as u8;
+  for a in lo..=lo.saturating_add(15) {
+    let mut g1 = g0.clone();
+    if g1.puncture(&[a]).is_err() {
+      cx.viol("C10/puncture-refused", format!("puncturing {} on a fresh key failed", a), json!({"input": a}));
+      return;
+    }
+    for b in 0..=255u8 {
+      if b == a {
+        continue;
+      }
+      let mut g = g1.clone();
+      cx.eval();
+      let d = || json!({"punctured_in_order": [a, b]});
+      if guard(|| g.puncture(&[b]).is_ok()) != Ok(true) {
+        cx.viol("C10/puncture-refused", format!("puncturing {} after {} failed although {} was never punctured", b, a, b), d());
+        return;
+      }
+      let mut o = [0u8; 32];
+      if g.eval(&[a], &mut o).is_ok() || g.eval(&[b], &mut o).is_ok() {
+        cx.viol("C10/punctured-input-still-evaluates", format!("after puncturing {} then {} one of them still evaluates", a, b), d());
+        return;
+      }
+      if g.clone().puncture(&[b]).is_ok() || g.clone().puncture(&[a]).is_ok() {
+        cx.viol("C10/not-refused/re-puncture", format!("after puncturing {} then {} one of them can be punctured again", a, b), d());
+        return;
+      }
+      for z in [a ^ 0x80, b ^ 0x80, a ^ 0x01, b ^ 0x01, a ^ 0x40, b ^ 0x40, a.wrapping_add(1), b.wrapping_sub(1)] {
+        if z == a || z == b {
+          continue;
+        }
+        let mut o = [0u8; 32];
+        if g.eval(&[z], &mut o).is_err() || Some(o) != baseline[z as usize] {
+          cx.viol("C10/unpunctured-input-lost", format!("after puncturing {} then {} the input {} (never punctured) {}", a, b, z, if Some(o) == baseline[z as usize] { "is refused" } else { "is refused or evaluates to another value" }), json!({"punctured_in_order": [a, b], "input": z}));
+          return;
+        }
+      }
+      cx.count("ordered_pairs", 1);
+    }
+    cx.nontrivial(a as u64);
+  }
+  cx.count("states", 16 * 255);
+  cx.count("transitions", 16 * 255);
+  cx.outcome("ordered pairs");
+}
+
 fn sequences() -> Vec<(&'static str, Vec<u8>)> {
   let asc: Vec<u8> = (0..=255u8).collect();
   let desc: Vec<u8> = (0..=255u8).rev().collect();
@@ -774,6 +829,13 @@ pub fn spec() -> PropSpec {
         gen: |_| vec![json!({})],
         run: run_many_operations,
         min_counts: &[("operations_on_one_object", 4000)],
+      },
+      Check {
+        name: "ordered-pairs-light",
+        rule: "ALL 65280 ordered pairs (a, b): puncture a, then b: both succeed, both inputs then refuse, neither can be punctured again, and the eight neighbours a^0x80, b^0x80, a^1, b^1, a^0x40, b^0x40, a+1, b-1 keep their values (the full 256-input invariant for every ordered pair is in the thorough tier)",
+        gen: |_| (0..16u64).map(|i| json!({"lo": i * 16})).collect(),
+        run: run_ordered_pairs_light,
+        min_counts: &[("ordered_pairs", 65_000)],
       },
       Check {
         name: "complete-sequences",
